@@ -89,9 +89,17 @@ VARIANTS = {
     'C03': [
         fire('skip-apply-in-formalize', L, 'List._formalized_value',
              'if self._value_spec and flags.is_type_check_enabled():', 'if False:', 'C03.a', 'List._formalized_value'),
-        fire('extend-without-max-size', L, 'List.extend',
-             'if self.max_size is not None and len(self) + len(other) > self.max_size:', 'if False:',
-             'C03.b', 'List.extend#max_size'),
+        fire('primitive-append-unbounded', L, 'List._set_item_without_permission_check',
+             "else:\n        if self.max_size is not None and len(self) >= self.max_size:\n            raise ValueError(f'List reached its max size {self.max_size}.')\n        super().append(new_value)",
+             'else:\n        super().append(new_value)', 'C03.b', '#max_size'),
+        fire('delitem-without-min-size', L, 'List.__delitem__',
+             'if self._value_spec and self._value_spec.min_size == len(self):', 'if False:', 'C03.b', 'List.__delitem__#min_size'),
+        fire('sweep-deletes-non-placeholders', L, 'List._on_change', 'if pg_typing.MISSING_VALUE == item:', 'if item is None or pg_typing.MISSING_VALUE == item:',
+             'C03.b', 'List._on_change'),
+        fire('removal-marker-unbounded', L, 'List._set_item_without_permission_check',
+             'if num_items <= self._value_spec.min_size:', 'if False:', 'C03.b', 'min_size'),
+        silent('extend-own-check-redundant', L, 'List.extend',
+               'if self.max_size is not None and len(self) + len(other) > self.max_size:', 'if False:'),
         fire('validate-skipped', VS, 'ValueSpecBase.apply', 'self._validate(root_path, value)', 'pass',
              'C03.d', 'ValueSpecBase.apply'),
         fire('range-inclusive-boundary-rejected', VS, 'Number._validate',
